@@ -111,6 +111,10 @@ func (stageComp) Corpus() [][]string {
 func (stageComp) Generate(r *Rand, tier string, n int) [][]string {
 	var cases [][]string
 	for i := 0; i < n; i++ {
+		if i%2 == 1 {
+			cases = append(cases, genStageScenario(r))
+			continue
+		}
 		ops := []string{"base ?", "recover 0"}
 		nfiles := r.Range(1, 3)
 		var files []*sfile
@@ -218,4 +222,177 @@ func (stageComp) Generate(r *Rand, tier string, n int) [][]string {
 		cases = append(cases, ops)
 	}
 	return cases
+}
+
+// genStageScenario: targeted histories — explicit pipeline scheduling, new versions of a
+// name while an older one is staged, held files and their release, predecessors known only
+// from the log, retry timers, wait loops and the cleaner, stray partials of every age,
+// corruption of staged data, consumption of delivered files, crash images of every kind
+// of operation.
+func genStageScenario(r *Rand) []string {
+	ops := []string{"base ?", "recover 0"}
+	names := []string{"a", "ab", "d/a", "d/ab.nc", "b", "x.y"}
+	r.Shuffle(len(names), func(i, j int) { names[i], names[j] = names[j], names[i] })
+	nf := r.Range(1, 4)
+	var files []*sfile
+	kind := r.Intn(8)
+	for j := 0; j < nf; j++ {
+		prev := ""
+		switch kind {
+		case 0, 1: // chain
+			if j > 0 {
+				prev = files[j-1].name
+			}
+		case 2: // loop
+			prev = names[(j+1)%nf]
+		case 3: // predecessor that never arrives / only in log
+			prev = "ghost"
+		case 4: // self reference
+			prev = names[j]
+		}
+		files = append(files, genFile(r, names[j], prev))
+	}
+	maybeCut := func(op string) []string {
+		if r.Chance(0.12) {
+			return []string{fmt.Sprintf("cut %d %s", r.Range(0, 5), op), "observe", "recover 0"}
+		}
+		return []string{op}
+	}
+	send := func(f *sfile, order []int) {
+		ops = append(ops, maybeCut(fmt.Sprintf("prepare %s %d 0", esc(f.name), len(f.body)))...)
+		for _, k := range order {
+			ops = append(ops, maybeCut(f.recvOp(k))...)
+		}
+	}
+	partOrder := func(f *sfile) []int {
+		o := make([]int, len(f.cuts)-1)
+		for i := range o {
+			o[i] = i
+		}
+		if r.Chance(0.5) {
+			r.Shuffle(len(o), func(i, j int) { o[i], o[j] = o[j], o[i] })
+		}
+		return o
+	}
+	pipeline := func(f *sfile) {
+		switch r.Intn(4) {
+		case 0:
+			ops = append(ops, "settle 0")
+		case 1:
+			ops = append(ops, maybeCut(fmt.Sprintf("process %s 0", esc(f.name)))...)
+			ops = append(ops, maybeCut(fmt.Sprintf("finh %s 0", esc(f.name)))...)
+		case 2:
+			ops = append(ops, fmt.Sprintf("process %s 0", esc(f.name)))
+		}
+	}
+	// arrival order of whole files: reversed chains make files wait
+	idx := make([]int, len(files))
+	for i := range idx {
+		idx[i] = i
+	}
+	if r.Chance(0.6) {
+		for i, j := 0, len(idx)-1; i < j; i, j = i+1, j-1 {
+			idx[i], idx[j] = idx[j], idx[i]
+		}
+	}
+	if kind == 3 && r.Chance(0.5) {
+		// the ghost predecessor was delivered in an earlier run: deliver it, then restart
+		g := genFile(r, "ghost", "")
+		send(g, partOrder(g))
+		ops = append(ops, "settle 0", "consume ghost", "crash", "recover 0")
+	}
+	for _, i := range idx {
+		f := files[i]
+		if r.Chance(0.15) {
+			// stale-free split reception: open first, write later (still the current partial)
+			ops = append(ops, fmt.Sprintf("prepare %s %d 0", esc(f.name), len(f.body)))
+			b, e := f.cuts[0], f.cuts[1]
+			ops = append(ops, fmt.Sprintf("ropen 1 %s %d %d", f.meta(), b, e))
+			ops = append(ops, fmt.Sprintf("rwrite 1 %s 0", tokOrDash(f.body[b:e])))
+			for k := 1; k+1 < len(f.cuts); k++ {
+				ops = append(ops, f.recvOp(k))
+			}
+		} else {
+			send(f, partOrder(f))
+		}
+		if r.Chance(0.12) {
+			// staged data overwritten before validation
+			ext := "full"
+			ops = append(ops, fmt.Sprintf("corrupt %s %s 0 %d", esc(f.name), ext, r.Range(251, 255)))
+		}
+		if r.Chance(0.2) {
+			// short reader
+			b, e := f.cuts[0], f.cuts[1]
+			if e-b >= 2 {
+				ops = append(ops, fmt.Sprintf("prepare %s %d 0", esc(f.name), len(f.body)),
+					fmt.Sprintf("recv %s %d %d %s 0", f.meta(), b, e, tokOrDash(f.body[b:e-1])))
+			}
+		}
+		pipeline(f)
+		if r.Chance(0.25) {
+			ops = append(ops, fmt.Sprintf("status %s 0 0", esc(f.name)))
+		}
+		if r.Chance(0.2) {
+			ops = append(ops, "observe")
+		}
+		if r.Chance(0.2) {
+			// a new version of the same name while the old one is wherever it is
+			g := genFile(r, f.name, f.prev)
+			g.renamed = f.renamed
+			if r.Chance(0.5) {
+				send(g, partOrder(g))
+			} else if len(g.cuts) > 2 {
+				send(g, partOrder(g)[:1])
+			}
+			pipeline(g)
+		}
+		if r.Chance(0.15) {
+			// retransmission of the whole file
+			send(f, partOrder(f))
+			pipeline(f)
+		}
+	}
+	ops = append(ops, "settle 0", "observe", "mem")
+	if kind == 3 {
+		for _, f := range files {
+			if r.Chance(0.6) {
+				ops = append(ops, fmt.Sprintf("firetimer %s", esc(f.name)), "settle 0")
+			}
+		}
+	}
+	if kind == 2 || r.Chance(0.2) {
+		ops = append(ops, "cleanwaiting", "settle 0", "observe")
+	}
+	if r.Chance(0.5) {
+		// left-overs of every age, then the stray cleaner
+		for _, f := range files {
+			if r.Chance(0.6) {
+				ops = append(ops, fmt.Sprintf("prepare %s %d 0", esc(f.name), len(f.body)))
+				if r.Chance(0.5) {
+					ops = append(ops, f.recvOp(0))
+				}
+				if r.Chance(0.3) {
+					g := genFile(r, f.name, "")
+					ops = append(ops, fmt.Sprintf("prepare %s %d 0", esc(g.name), len(g.body)), g.recvOp(0))
+				}
+				age := []int{-3600, -80000, -90000, -200000, -400000}[r.Intn(5)]
+				ops = append(ops, fmt.Sprintf("chtime %s part %d", esc(f.name), age))
+			}
+		}
+		ops = append(ops, "observe")
+		ops = append(ops, maybeCut("cleanstrays 0")...)
+		ops = append(ops, "observe", "scan")
+	}
+	for _, f := range files {
+		ops = append(ops, fmt.Sprintf("status %s %d 0", esc(f.name), []int{0, -100000, -3000000}[r.Intn(3)]))
+		ops = append(ops, fmt.Sprintf("received %s %s %s %s %d %d %d 0", esc(f.name), esc(f.renamed), esc(f.prev), esc(f.hash),
+			[]int{0, -100000, 5000}[r.Intn(3)], f.cuts[0], f.cuts[1]))
+	}
+	if r.Chance(0.4) {
+		ops = append(ops, "crash", "recover 0", "settle 0", "observe")
+		for _, f := range files {
+			ops = append(ops, fmt.Sprintf("status %s 0 0", esc(f.name)))
+		}
+	}
+	return ops
 }
